@@ -104,7 +104,8 @@ package index
 // property, decoded from the previous / new document; a property absent on both sides is skipped,
 // present only now is an insert, present only before a delete, present on both an update. The
 // typed change handed to an inverted, text or vector index carries the point's node id and exactly
-// those two values (absent stays absent); a value of the wrong type is an error, never a guess.
+// those two values (absent stays absent); a value of the wrong type is an error, never a guess,
+// and none of these steps ever asks the pipeline to skip an element (skip would hide the error).
 //@ func getOperation
 //@   property C02 C03 C04 C05
 //@   ensures err == nil ==> prevProp == callres(getPropertyFromBytes, 1, 0) && callarg(getPropertyFromBytes, 1, 1) == prevData && callarg(getPropertyFromBytes, 1, 2) == propertyName
@@ -117,7 +118,8 @@ package index
 //@ func preProcessInverted
 //@   property C02
 //@   allocates
-//@   ensures err == nil ==> !skip && invChange.Id == change.nodeId
+//@   ensures !skip
+//@   ensures err == nil ==> invChange.Id == change.nodeId
 //@   ensures err == nil ==> (invChange.PreviousData == nil) == (change.oldData == nil) && (invChange.CurrentData == nil) == (change.newData == nil)
 //@   ensures err == nil && change.oldData != nil ==> isdyn(change.oldData, T) && (*invChange.PreviousData == dyn(change.oldData, T) || dyn(change.oldData, T) != dyn(change.oldData, T))
 //@   ensures err == nil && change.newData != nil ==> isdyn(change.newData, T) && (*invChange.CurrentData == dyn(change.newData, T) || dyn(change.newData, T) != dyn(change.newData, T))
@@ -125,7 +127,8 @@ package index
 //@ func preProcessInvertedArray
 //@   property C02
 //@   allocates
-//@   ensures err == nil ==> !skip && invChange.Id == change.nodeId && invChange.PreviousData == callres(castDataToArray, 1, 0) && invChange.CurrentData == callres(castDataToArray, 2, 0)
+//@   ensures !skip
+//@   ensures err == nil ==> invChange.Id == change.nodeId && invChange.PreviousData == callres(castDataToArray, 1, 0) && invChange.CurrentData == callres(castDataToArray, 2, 0)
 //@   ensures callarg(castDataToArray, 1, 0) == change.oldData && (ncalls(castDataToArray) == 2 ==> callarg(castDataToArray, 2, 0) == change.newData)
 //@   ensures err == nil ==> ncalls(castDataToArray) == 2 && callres(castDataToArray, 1, 1) == nil && callres(castDataToArray, 2, 1) == nil
 
@@ -136,7 +139,8 @@ package index
 
 //@ func preProcessText
 //@   property C05
-//@   ensures err == nil ==> !skip && doc.Id == change.nodeId
+//@   ensures !skip
+//@   ensures err == nil ==> doc.Id == change.nodeId
 //@   ensures err == nil && change.newData != nil ==> isdyn(change.newData, string) && doc.Text == dyn(change.newData, string)
 //@   ensures err == nil && change.newData == nil ==> doc.Text == ""
 
